@@ -32,6 +32,7 @@ def state_graph(steps):
     for m in re.finditer(r'^(-?\d+) -> (-?\d+) \[label="Do(Call|Mutate)\((?:\\"(\w+)\\"|(\d+))\)"', dot, re.M):
         step = ["call", m.group(4)] if m.group(3) == "Call" else ["mutate", int(m.group(5)) - 1]
         edges.append((m.group(1), step, m.group(2)))
+    edges.sort(key=lambda e: (e[0], e[2], json.dumps(e[1])))     # (TLC's output order depends on its worker scheduling)
     if len(inits) != 1 or not edges:
         raise Machinery("could not parse TLC's state graph dump of GBMemory")
     return inits[0], edges
@@ -83,13 +84,15 @@ def build(rng, tier):
     # 2. every ordered pair of concrete methods: call A, write through A's result, call B, call A again
     for a in memory.METHODS:
         for b in memory.METHODS:
+            if tier == "quick" and rng.random() < 0.55:
+                continue
             for _ in range(1 if tier == "quick" else 3):
                 prop.append(dict(draw_world(rng), steps=[["call", a], ["mutate", 0], ["call", b], ["call", a]]))
     # 3. every method on every value container / mask kind (inputs intact, no aliasing)
     for m in memory.METHODS:
         for venc in memory.VENCS:
             for mk in ["none", "bool", "series", "pos", "slice"]:
-                if tier == "quick" and rng.random() < 0.5:
+                if tier == "quick" and rng.random() < 0.75:
                     continue
                 w = draw_world(rng)
                 w.update(venc=venc, mkind=mk)
@@ -138,7 +141,10 @@ def run(tier):
     ck.notes.update(notes)
     sched.install()
     warm = [dict(keys=[1, 2, 1, 2], kenc="f64", kcont="np", venc="f64", mkind="none", chunked=False, seed=1, steps=[["call", "size"]])]
-    traces = ck.drive(memory.run_history, prop + bind, warm_cases=warm)
+    # kernels that take function arguments are compiled per process (never cached on disk): cases that need the same
+    # signatures (value dtype x width of the key codes) go to the same worker
+    grp = lambda c: f"{c['venc']}|{c['kenc'].startswith('cat')}"
+    traces = ck.drive(memory.run_history, prop + bind, warm_cases=warm, group=grp)
     tp, tb = traces[:len(prop)], traces[len(prop):]
     key = lambda t: json.dumps([t["keys"], t["cfg"]])
     rej = ck.validate("Trace_GBMemory", tp, TRACE_CFG.format(a="NoDev", c="FALSE") + INVS, "histories",
